@@ -12,9 +12,9 @@ PROPS['C07'] = dict(
     floor=60,
     assumptions=['tempo events only in track 0 (statement: tempo map of track 0)', 'every track uses its own channels so events are attributable'],
     stages=[
-        dict(name='tick-exact', variant='asan', harness='c07_seq.cpp', quick=3000, thorough=60000),
-        dict(name='tick-fixed', variant='asan', harness='c07_seq.cpp', quick=1500, thorough=30000),
-        dict(name='audio', variant='asan', harness='c07_seq.cpp', quick=600, thorough=10000, budget=60),
+        dict(name='tick-exact', variant='asan', harness='c07_seq.cpp', quick=8000, thorough=120000),
+        dict(name='tick-fixed', variant='asan', harness='c07_seq.cpp', quick=4000, thorough=60000),
+        dict(name='audio', variant='asan', harness='c07_seq.cpp', quick=1500, thorough=20000, budget=60),
         dict(name='memcheck', variant='plain-d', harness='c07_seq.cpp', quick=1000, thorough=20000, budget=150, wall=2400, **{'as': 'tick-exact'},
              wrapper=['valgrind', '-q', '--error-exitcode=79', '--exit-on-first-error=yes', '--track-origins=no', '--leak-check=no']),
     ],
